@@ -226,6 +226,15 @@ EXCLUDED = {
 }
 
 
+# row / column proportions (and what is derived from them): the only outputs the
+# wave-difference rule touches
+_WAVE = {"%s_%s" % (d, m) for d in ("row", "column")
+         for m in ("proportions", "percentages", "proportion_variances", "std_dev", "std_err",
+                   "proportions_moe")} | {"population_counts", "population_counts_moe",
+                                          "population_proportions", "population_std_err"}
+WAVE_FAMILY = {0: _WAVE, 1: _WAVE}
+
+
 @st.composite
 def merge_case_st(draw):
     sc = draw(scen.scenario_st(MERGE_SHAPES, measure="maybe", min_valid=2, max_valid=5,
@@ -263,7 +272,7 @@ def merge_case_st(draw):
     if xforms.can_insert(ovar, other.get("part")) and ovar.get("flavour") != "datetime" \
             and draw(st.booleans()):
         ov, om = xforms.dim_ids(ovar, other.get("part"))
-        sc["other_ins"] = draw(xforms.insertions_st(ov, om, max_ins=2, allow_diff=False,
+        sc["other_ins"] = draw(xforms.insertions_st(ov, om, max_ins=2, allow_diff=True,
                                                     allow_malformed=False, with_id=True))
     sc["alpha"] = draw(st.sampled_from([None, [0.4, 0.7]]))
     sc["population"] = draw(st.sampled_from([None, 500]))
@@ -382,6 +391,15 @@ def judge_merge(case, rec):
         if tot:
             rec.nontrivial()
     both_rank2 = _base_rank(oA) >= 2 and _base_rank(oM) >= 2
+    # display positions, along the OPPOSING axis, of differences on a categorical-date
+    # dimension (same insertions and order in both runs)
+    wave_pos = []
+    odim = oA.cols if which == 0 else oA.rows
+    if odim.var.get("flavour") == "cat_date" and case["other_ins"]:
+        ospecs = lib.display_specs(A.column_order() if which == 0 else A.row_order(),
+                                   A.column_labels if which == 0 else A.row_labels, odim,
+                                   case["other_ins"])
+        wave_pos = [k for k, sp in enumerate(ospecs) if oA.is_diff(sp)]
     opp_array = (oA.cols if which == 0 else oA.rows).is_array
     sA = observe.snapshot(A)
     sM = observe.snapshot(M)
@@ -434,6 +452,12 @@ def judge_merge(case, rec):
         sig = "merge-" + name
         if name in ("rows_margin_proportion", "columns_margin_proportion") and opp_array:
             sig = "margin-proportion-2d-double-assembly"
+        if not _vec_close(a, m) and wave_pos and name in WAVE_FAMILY[which] and \
+                np.ndim(a) == 1 and np.shape(a) == np.shape(m) and \
+                _vec_close(np.delete(a, wave_pos), np.delete(m, wave_pos)):
+            # differs ONLY where the subtotal meets a difference on the opposing
+            # categorical-date dimension
+            sig = "subtotal-x-wave-difference-intersection"
         if not _vec_close(a, m):
             rec.violation(
                 "%s of the subtotal %r differs from the merged category: %r vs %r (axis %d)"
@@ -451,14 +475,27 @@ def judge_merge(case, rec):
                 rec.compared()
                 if not _vec_close(selA[:, qa], selM[:, qm]):
                     rec.violation("%s(selected=subtotal)[:, %d] %r vs merged %r" % (
-                        fn, qa, selA[:, qa].tolist(), selM[:, qm].tolist()), "merge-" + fn)
+                        fn, qa, selA[:, qa].tolist(), selM[:, qm].tolist()),
+                        _wave_sig(selA[:, qa], selM[:, qm], wave_pos, "merge-" + fn))
             for (qa, qm) in corr:
                 ca = np.asarray(getattr(A, fn)(qa), dtype=float)[:, pA]
                 cm = np.asarray(getattr(M, fn)(qm), dtype=float)[:, pM]
                 rec.compared()
                 if not _vec_close(ca, cm):
                     rec.violation("%s(selected=%d)[:, subtotal] %r vs merged %r" % (
-                        fn, qa, ca.tolist(), cm.tolist()), "merge-" + fn)
+                        fn, qa, ca.tolist(), cm.tolist()),
+                        _wave_sig(ca, cm, wave_pos, "merge-" + fn))
+
+
+def _wave_sig(a, m, wave_pos, default):
+    """Known-finding signature when `a` and `m` differ ONLY where the subtotal meets a
+    difference on the opposing categorical-date dimension (column tests are built on the
+    column proportions of those cells)."""
+    a, m = np.asarray(a, dtype=float), np.asarray(m, dtype=float)
+    if wave_pos and a.ndim == 1 and a.shape == m.shape and \
+            _vec_close(np.delete(a, wave_pos), np.delete(m, wave_pos)):
+        return "subtotal-x-wave-difference-intersection"
+    return default
 
 
 def _vec_close(a, b):
